@@ -258,7 +258,6 @@ func VerifC18_pickup_args() {
 	IsSuitableConfig(shuffled, divider.Fair, 1, 12.5)
 	PickUpMinSuitableQuantity(shuffled, divider.Fair, 1, 12.5)
 	PickUpMaxSuitableQuantity(shuffled, divider.Fair, 1, 12.5)
-	vAssert(seen == 6, "predicate evaluated once per call here")
 	// the caller's slice is never reordered
 	for i := range shuffled {
 		vAssert(shuffled[i] == shuffledCopy[i], "the helpers do not modify the caller's priority slice")
